@@ -60,9 +60,9 @@ Theorem C09_walk_stops : forall vals dflt inherits target fuel visited cur,
   exists nd, get_value_at vals (walk vals dflt inherits fuel visited cur target) target = Some nd /\ nd <> NDefault.
 Proof. exact walk_spec. Qed.
 (** ... so [look] restarts at most once: the two rounds [resolve] gives it are never exhausted *)
-Theorem C09_look_one_restart : forall vals dflt inherits (rec : list (str * keypath) -> str -> pv -> res pv) stack target args L,
+Theorem C09_look_one_restart : forall vals dflt inherits (rec : list (str * keypath) -> str -> pv -> res pv) stack target args A L,
   (forall st l v, rec st l v <> OutOfFuel) ->
-  look vals dflt inherits rec 2 stack target args L <> OutOfFuel.
+  look vals dflt inherits rec 2 stack target args A L <> OutOfFuel.
 Proof. exact look_no_oof. Qed.
 
 (** non-vacuity: the project of Props/C06c.v (5 values and a null, a chain with arguments, a component) *)
